@@ -382,6 +382,18 @@ impl<'a> Snippet<'a> {
             local_end,
         );
 
+        // A location on the empty line after the input's final line break (typical for
+        // end-of-input errors): the renderer only shows lines that are terminated or non-empty,
+        // and would draw the marker at the end of the previous line. Terminate the empty line so
+        // it is shown, under its own number, with the marker in column 1.
+        let mut window_text = window_text;
+        if relative_row == total_lines
+            && local_start == window_text.len()
+            && window_text.ends_with('\n')
+        {
+            window_text.push('\n');
+        }
+
         // Map the window's starting line number back to absolute coordinates for display.
         let window_start_absolute_row = match self.mapping {
             LineMapping::Identity => window_start_row,
